@@ -222,6 +222,9 @@ type rewriter struct {
 	initLit  map[ast.Node]string   // &T{...} of a struct with sync fields -> label
 	initVar  map[ast.Node][]string // DeclStmt declaring sync objects -> names
 	useVSync bool
+	capVar   map[types.Object]string // captured, assigned local variables -> label
+	capUse   map[*ast.Ident]string   // their uses
+	retReads map[ast.Node][]string   // bare returns that implicitly read captured named results
 	nsel     int
 	useVS    bool
 	netFuncs bool
@@ -303,6 +306,12 @@ func (rw *rewriter) trackedField(sel *ast.SelectorExpr) (string, bool) {
 // markWrites marks the tracked field selectors that are written when e is assigned to.
 func (rw *rewriter) markWrites(e ast.Expr) {
 	switch x := unparen(e).(type) {
+	case *ast.Ident:
+		if o := rw.pkg.TypesInfo.Uses[x]; o != nil {
+			if _, ok := rw.capVar[o]; ok {
+				rw.writes[x] = true
+			}
+		}
 	case *ast.SelectorExpr:
 		if _, ok := rw.trackedField(x); ok {
 			rw.writes[x] = true
@@ -349,10 +358,140 @@ func funcDeclName(fd *ast.FuncDecl) string {
 	return fd.Name.Name
 }
 
+// captured finds the local variables (parameters and named results included) that are referenced from a
+// function literal which may run on another goroutine (anything but an immediately invoked or deferred
+// literal) and that are assigned somewhere after their declaration: accesses to them are instrumented like
+// the pool's fields (e.g. `l` in Size(), written by the strand goroutine and read by the caller's return).
+func (rw *rewriter) captured(f *ast.File) {
+	info := rw.pkg.TypesInfo
+	for _, d := range f.Decls {
+		fd, ok := d.(*ast.FuncDecl)
+		if !ok || fd.Body == nil {
+			continue
+		}
+		fn := funcDeclName(fd)
+		// function literals called on the spot (IIFE, defer) run on the same goroutine
+		local := map[*ast.FuncLit]bool{}
+		ast.Inspect(fd, func(n ast.Node) bool {
+			switch x := n.(type) {
+			case *ast.DeferStmt:
+				if fl, ok := x.Call.Fun.(*ast.FuncLit); ok {
+					local[fl] = true
+				}
+			case *ast.ExprStmt:
+				if c, ok := x.X.(*ast.CallExpr); ok {
+					if fl, ok := c.Fun.(*ast.FuncLit); ok {
+						local[fl] = true
+					}
+				}
+			case *ast.AssignStmt:
+				for _, r := range x.Rhs {
+					if c, ok := r.(*ast.CallExpr); ok {
+						if fl, ok := c.Fun.(*ast.FuncLit); ok {
+							local[fl] = true
+						}
+					}
+				}
+			}
+			return true
+		})
+		cand := map[types.Object]bool{}
+		ast.Inspect(fd, func(n ast.Node) bool {
+			fl, ok := n.(*ast.FuncLit)
+			if !ok || local[fl] {
+				return true
+			}
+			ast.Inspect(fl.Body, func(m ast.Node) bool {
+				id, ok := m.(*ast.Ident)
+				if !ok {
+					return true
+				}
+				v, ok := info.Uses[id].(*types.Var)
+				if !ok || v.IsField() || v.Pkg() != rw.pkg.Types {
+					return true
+				}
+				if v.Pos() >= fd.Pos() && v.Pos() < fd.End() && (v.Pos() < fl.Pos() || v.Pos() >= fl.End()) {
+					cand[v] = true
+				}
+				return true
+			})
+			return true
+		})
+		if len(cand) == 0 {
+			continue
+		}
+		// keep those that are assigned after their declaration
+		written := map[types.Object]bool{}
+		mark := func(e ast.Expr) {
+			if id, ok := unparen(e).(*ast.Ident); ok {
+				if o := info.Uses[id]; o != nil && cand[o] {
+					written[o] = true
+				}
+			}
+		}
+		ast.Inspect(fd, func(n ast.Node) bool {
+			switch x := n.(type) {
+			case *ast.AssignStmt:
+				for _, l := range x.Lhs {
+					mark(l)
+				}
+			case *ast.IncDecStmt:
+				mark(x.X)
+			case *ast.RangeStmt:
+				if x.Tok == token.ASSIGN {
+					if x.Key != nil {
+						mark(x.Key)
+					}
+					if x.Value != nil {
+						mark(x.Value)
+					}
+				}
+			case *ast.UnaryExpr:
+				if x.Op == token.AND {
+					mark(x.X) // address taken: may be written through the pointer
+				}
+			}
+			return true
+		})
+		for o := range written {
+			rw.capVar[o] = "local:" + o.Name() + "@" + fn
+		}
+	}
+}
+
+// namedResults returns the captured named results of a function type.
+func (rw *rewriter) namedResults(ft *ast.FuncType) []string {
+	var out []string
+	if ft == nil || ft.Results == nil {
+		return nil
+	}
+	for _, f := range ft.Results.List {
+		for _, n := range f.Names {
+			if o := rw.pkg.TypesInfo.Defs[n]; o != nil {
+				if _, ok := rw.capVar[o]; ok {
+					out = append(out, n.Name)
+				}
+			}
+		}
+	}
+	return out
+}
+
 // analyse is pass 1: decisions are taken on the ORIGINAL tree (type information is keyed by its nodes).
 func (rw *rewriter) analyse(f *ast.File) {
 	var stack []ast.Node
 	curFn := "init"
+	enclosingFuncType := func() *ast.FuncType {
+		for i := len(stack) - 1; i >= 0; i-- {
+			switch x := stack[i].(type) {
+			case *ast.FuncLit:
+				return x.Type
+			case *ast.FuncDecl:
+				return x.Type
+			}
+		}
+		return nil
+	}
 	ast.Inspect(f, func(n ast.Node) bool {
 		if n == nil {
 			stack = stack[:len(stack)-1]
@@ -366,6 +505,35 @@ func (rw *rewriter) analyse(f *ast.File) {
 		switch x := n.(type) {
 		case *ast.FuncDecl:
 			curFn = funcDeclName(x)
+		case *ast.Ident:
+			if o := rw.pkg.TypesInfo.Uses[x]; o != nil {
+				if lbl, ok := rw.capVar[o]; ok {
+					skipIt := false
+					switch p := parent.(type) {
+					case *ast.UnaryExpr:
+						skipIt = p.Op == token.AND
+					case *ast.AssignStmt:
+						if p.Tok == token.DEFINE {
+							for _, l := range p.Lhs {
+								if l == ast.Expr(x) {
+									rw.fail(x, "captured variable %s re-assigned by := : cannot be instrumented", x.Name)
+								}
+							}
+						}
+					}
+					if !skipIt {
+						rw.capUse[x] = lbl
+						rw.fnOf[x] = curFn
+					}
+				}
+			}
+		case *ast.ReturnStmt:
+			if len(x.Results) == 0 {
+				if names := rw.namedResults(enclosingFuncType()); len(names) > 0 {
+					rw.retReads[x] = names
+					rw.fnOf[x] = curFn
+				}
+			}
 		case *ast.SelectorExpr:
 			if _, ok := rw.trackedField(x); ok {
 				rw.fnOf[x] = curFn
@@ -598,6 +766,9 @@ func (rw *rewriter) file(f *ast.File, rel string) ([]byte, bool) {
 	rw.initLit = map[ast.Node]string{}
 	rw.initVar = map[ast.Node][]string{}
 	rw.useVSync = false
+	rw.capVar = map[types.Object]string{}
+	rw.capUse = map[*ast.Ident]string{}
+	rw.retReads = map[ast.Node][]string{}
 	rw.useVS, rw.netFuncs, rw.timeFunc = false, false, false
 	for _, cg := range f.Comments {
 		for _, c := range cg.List {
@@ -611,6 +782,7 @@ func (rw *rewriter) file(f *ast.File, rel string) ([]byte, bool) {
 			}
 		}
 	}
+	rw.captured(f)
 	rw.analyse(f)
 
 	fnStack := []string{}
@@ -652,6 +824,40 @@ func (rw *rewriter) file(f *ast.File, rel string) ([]byte, bool) {
 			}
 			rw.count("send")
 			c.Replace(&ast.ExprStmt{X: method(x.Chan, "Send", x.Value)})
+		case *ast.Ident:
+			lbl, ok := rw.capUse[x]
+			if !ok {
+				return true
+			}
+			if sel, isSel := c.Parent().(*ast.SelectorExpr); isSel && sel.Sel == x {
+				return true
+			}
+			rw.useVS = true
+			fn := "R"
+			if rw.writes[x] {
+				fn = "W"
+				rw.count("local-write")
+			} else {
+				rw.count("local-read")
+			}
+			c.Replace(&ast.ParenExpr{X: &ast.StarExpr{X: &ast.CallExpr{Fun: vs(fn), Args: []ast.Expr{
+				&ast.UnaryExpr{Op: token.AND, X: x}, str(lbl), str(rw.fnOf[x])}}}})
+		case *ast.ReturnStmt:
+			names, ok := rw.retReads[x]
+			if !ok {
+				return true
+			}
+			// a bare return reads the named results
+			rw.useVS = true
+			var list []ast.Stmt
+			for _, nme := range names {
+				rw.count("local-read")
+				lbl := "local:" + nme + "@" + rw.fnOf[x]
+				list = append(list, &ast.AssignStmt{Lhs: []ast.Expr{ast.NewIdent("_")}, Tok: token.ASSIGN, Rhs: []ast.Expr{
+					&ast.StarExpr{X: &ast.CallExpr{Fun: vs("R"), Args: []ast.Expr{&ast.UnaryExpr{Op: token.AND, X: ast.NewIdent(nme)}, str(lbl), str(rw.fnOf[x])}}}}})
+			}
+			list = append(list, x)
+			c.Replace(&ast.BlockStmt{List: list})
 		case *ast.DeclStmt:
 			for _, lbl := range rw.initVar[x] {
 				name := lbl[:strings.Index(lbl, "@")]
